@@ -186,8 +186,15 @@ func (pb *predBuilder) valueFormula(v ssa.Value, depth int) formula {
 				}
 				return eq
 			}
-			// generic equality on non-numeric operands: an opaque atom
-			a := fAtom{"eq(" + pb.key(x.X) + "," + pb.key(x.Y) + ")"}
+			// generic equality on non-numeric operands: an opaque atom (a constant operand is written second,
+			// whichever side the source has it on)
+			kx, ky := pb.key(x.X), pb.key(x.Y)
+			if _, xConst := stripConv(x.X).(*ssa.Const); xConst {
+				if _, yConst := stripConv(x.Y).(*ssa.Const); !yConst {
+					kx, ky = ky, kx
+				}
+			}
+			a := fAtom{"eq(" + kx + "," + ky + ")"}
 			if x.Op == token.NEQ {
 				return mkNot(a)
 			}
